@@ -675,6 +675,8 @@ class Prop(fw.PropBase):
         res = self.run_impl_cases(cases)
         self.case_list, self.impl_res = cases, res
         inputs, impl_out, index = [], [], []
+        in_scope = []     # per run: the theorem's precondition or the property's literal wording (sorted arrival, contig blocks,
+        #                   fragments shorter than cache_size) holds; outside both the partition may depend on the schedule
         nontrivial, hist_n, hist_reg = set(), {}, {}
         n_ejecting = n_multi = n_pre = n_err = n_pool_differ = 0
         pool_example = None
@@ -714,6 +716,7 @@ class Prop(fw.PropBase):
                 n_err += run['error'] is not None
                 ok, L, lag = pre_py(absf, cfg)
                 n_pre += ok
+                in_scope.append(bool(ok) or bool(wide_py(absf, cfg)))
                 pre_inputs.append((inp + [L, lag], 1 if ok else 0))
                 # the gap between the theorem's inequality and the property's wording ("shorter than the cache radius"):
                 # start-sorted (lag = 0), everything of the precondition holds except the inequality, and L < cache_size
@@ -767,7 +770,7 @@ class Prop(fw.PropBase):
             return
         mout = fw.run_model('C07', 0, inputs)
         dis = []
-        n_timing = 0
+        n_timing = n_unscoped = 0
         for i, (a, b) in enumerate(zip(mout, impl_out)):
             ci, cfg = index[i]
             absf = res[ci]['abs']
@@ -776,6 +779,9 @@ class Prop(fw.PropBase):
             # fragment still matches it (evaluated on the implementation's own run above); after which read a molecule
             # leaves the buffer is scheduling: a difference there is recorded, the set of yielded molecules is compared
             n_timing += (a != b)
+            if not in_scope[i]:
+                n_unscoped += (run_partition(a) != run_partition(b))
+                continue
             if run_partition(a) != run_partition(b):
                 dis.append({'case': ci, 'cfg': cfg, 'frags': cases[ci]['frags'], 'cls': cases[ci]['cls'],
                             'model': a, 'impl': b, 'impl_error': res[ci]['runs'][case_cfg_index(cases[ci], cfg)]['error']})
@@ -816,6 +822,8 @@ class Prop(fw.PropBase):
                             'model': [mst, mrun], 'impl': e, 'impl_error': None})
         self.cov['histories_validated_against_impl'] = len(hin)
         self.cov['info_runs_where_the_ejection_timing_differs_from_the_model'] = n_timing
+        self.cov['info_runs_outside_precondition_and_property_wording_where_partitions_differ'] = n_unscoped
+        self.cov['runs_inside_precondition_or_property_wording'] = sum(in_scope)
         self.cov['histories_with_nonempty_buffer_left_by_an_abandoned_pass'] = n_dirty
         self.cov['info_histories_where_the_left_over_buffer_differs_from_the_model'] = n_state_diff
         mpre = fw.run_model('C07', 1, [p[0] for p in pre_inputs])
